@@ -25,6 +25,30 @@ check("C08", "model_checking",
       "Trusts the regex crate as matching oracle; coverage is the pattern/haystack alphabets and the history depth; state merging by 128-bit fingerprint of the canonical snapshot.",
       "DESIGN.md 3.2, 4 (C08)", "E2 tree-state explorer")
 
+check("C03", "model_checking",
+      "explicit-state BFS over chunk schedules of the real filter chain (state = offset + emitted bytes + full Debug rendering of the filter), one-chunk differential oracle",
+      "For every (body, filter list, response headers) of the corpus, EVERY partition of the body into consecutive chunks, empty chunks included, is covered by a breadth-first search over (offset, emitted bytes, complete filter state) that merges equal states; at every end-of-stream state the total output must equal the one-chunk run. The corpus contains every sequence of <=3 (quick) / <=4 (thorough) tokens of a 16-token markup grammar (malformed, truncated, multi-byte, scripts, comments, raw text) and 25 curated documents. State merging is re-validated on every run against an unmerged enumeration of all 2^(n-1) partitions of the short bodies.",
+      "Bodies outside the corpus are not covered; compressed chains are C14. Open findings (lexical context lost across chunks inside script/textarea/title/comment/CDATA) are listed in known_findings.json by cut-context signature.",
+      "DESIGN.md 3.3, 4 (C03)", "E3 chunk-schedule explorer")
+
+check("C04", "model_checking",
+      "explicit-state BFS over chunk schedules x byte-fault positions on the real filter chain, byte-conservation relation at every end-of-stream state",
+      "Same explorer as C03 (all partitions of every body), over well-formed, malformed, truncated-at-every-byte and non-UTF-8 bodies (one fault byte 0xFF/0x80/0xC3 inserted at every position of the curated documents) and over filter lists that are insert-only, replacing, empty, not buildable (unknown action, empty path, non-HTML content type, unsupported encoding) or not applicable. Every reachable final output must satisfy the statement's relation: pass-through byte-for-byte; insert-only => output minus sentinel values == input; replace => output minus values is the input minus '<...>' spans (decided by a DP).",
+      "Sentinel values occur in no body (asserted). replace_text is outside the statement's cases. Coverage = corpus x fault alphabet x all partitions.",
+      "DESIGN.md 3.3, 4 (C04)", "E3 chunk-schedule explorer + byte faults")
+
+check("C13", "exploration",
+      "exhaustive product enumeration (header lists x filter sequences) against a reference fold",
+      "Full product of all header lists of length <=3 over names {X,x,Y} x values {a,''} (259) with all filter sequences of length <=3 (quick) / <=4 (thorough) over {add, remove, replace, override, default, bogus} x names {X,x,Y,Z}; FilterHeaderAction::filter and Action::filter_headers are both compared, as ordered lists, with a fold of five 5-line reference operations.",
+      "Names/values outside the alphabet and longer sequences are not covered.",
+      "DESIGN.md 3.4, 4 (C13)", "E4 product enumerator")
+
+check("C16", "exploration",
+      "exhaustive enumeration of all byte strings / token sequences up to a length, span-accounting oracle",
+      "Every byte string of length <=7 (quick) / <=8 (thorough) over a 12-byte markup alphabet, every sequence of <=4 / <=5 tokens over a 26-token alphabet (script/escaped/double-escaped states, raw-text elements, CDATA, doctype, non-UTF-8, NUL) and the byte sweep inside each of 11 fragment contexts is tokenised to the end: termination within |input|+1 tokens, no empty token, no panic, raw spans + remainder == input, and every accessor Ok on valid UTF-8.",
+      "Release profile only (the script states recurse per byte in debug builds). Longer inputs are not covered.",
+      "DESIGN.md 3.4, 4 (C16)", "E4 product enumerator")
+
 ALL = [f"C{n:02d}" for n in range(1, 20)]
 
 NOT_BUILT_REASON = "check not built yet in this round (planned, see DESIGN.md section 0); not claimed until its explorer exists and has been shown to detect a seeded change"
@@ -41,6 +65,8 @@ def main():
             "add_only": True,
         },
         "engines": [
+            {"name": "E-chunk", "path": "harness/src/engines/chunk.rs", "serves_properties": ["C03", "C04", "C14"],
+             "kind_free_text": "BFS over all chunk partitions of a body with state merging on the complete filter state"},
             {"name": "E-bfs", "path": "harness/src/engines/bfs.rs", "serves_properties": ["C01", "C02", "C08", "C12", "C17"],
              "kind_free_text": "level-synchronous explicit-state BFS over the real implementation object; canonical state keys from the `verif` snapshot hooks"},
         ],
